@@ -780,6 +780,135 @@ pub fn directed_scenarios() -> Vec<Scenario> {
     v
 }
 
+// ---------------------------------------------------------------- decoded-size thresholds
+
+/// Decoded sizes at which a decoder with staged / growing output buffers changes path.
+pub const SIZE_THRESHOLDS: [usize; 4] = [1 << 16, 1 << 20, 2 << 20, 4 << 20];
+/// 12 table-keyed (4 thresholds x {-1, 0, +1}) + 4 glyph-keyed scenarios.
+pub const N_THRESHOLD_SCENARIOS: usize = 16;
+
+/// Position-dependent content: every 1 KiB block starts with a hash of its index, so a chunk
+/// written at the wrong output offset can never reproduce the expected bytes.
+fn stamp_positions(v: &mut [u8]) {
+    for (k, c) in v.chunks_mut(1024).enumerate() {
+        if c.len() >= 4 {
+            c[..4].copy_from_slice(&(k as u32 ^ 0x5bd1_e995).wrapping_mul(2_654_435_761).to_be_bytes());
+        }
+    }
+}
+
+fn compress_or_stored(data: &[u8], dict: Option<&[u8]>, q: u32, lgwin: u32) -> Vec<u8> {
+    enc::brotli_compress(data, dict, q, lgwin).unwrap_or_else(|| brotli_stored(data))
+}
+
+/// Scenario `j` of the decoded-size family: ONE patch whose brotli streams (really compressed by the
+/// C encoder, decoded by the built-in C decoder) decode to `threshold - 1 | threshold | threshold + 1`
+/// bytes. j < 12: a table-keyed patch replacing `tabA` (no dictionary) and diffing `tabB` (raw shared
+/// dictionary = the base table); j >= 12: a glyph-keyed patch whose payload has that size.
+pub fn threshold_scenario(seed: u64, j: usize) -> Scenario {
+    let mut rng = Rng::derive(seed, "c18-threshold", j as u64);
+    let rng = &mut rng;
+    let compat = rand_compat(rng);
+    let q = [1u32, 2, 5, 0, 4, 6][j % 6];
+    let lgwin = [22u32, 24, 18, 16][j % 4];
+    let index = 2_000_000 + j;
+    let mut patches = BTreeMap::new();
+    let (fs, ift, flavour) = if j < 12 {
+        let size = SIZE_THRESHOLDS[j / 3] + (j % 3) - 1;
+        let len_a = 2000 + rng.usize(6000);
+        let base_a = enc::structured_bytes(rng, len_a, None);
+        let len_b = if j % 2 == 0 { size - rng.usize(1000) } else { 20_000 + rng.usize(20_000) };
+        let mut base_b = enc::structured_bytes(rng, len_b, None);
+        stamp_positions(&mut base_b);
+        let mut plain_a = enc::structured_bytes(rng, size, None);
+        stamp_positions(&mut plain_a);
+        // incompressible stretch: literal-heavy meta-blocks as well as copies
+        let r = rng.bytes(size / 4);
+        plain_a[size / 2..size / 2 + r.len()].copy_from_slice(&r);
+        let mut plain_b = enc::structured_bytes(rng, size, Some(&base_b));
+        stamp_positions(&mut plain_b);
+        let slack = |rng: &mut Rng| if j % 2 == 0 { 0 } else { 1 + rng.below(5000) as u32 };
+        let entries = vec![
+            TkEntry { tag: *b"tabA", flags: 1, max_len: size as u32 + slack(rng), stream: compress_or_stored(&plain_a, None, q, lgwin) },
+            TkEntry { tag: *b"tabB", flags: 0, max_len: size as u32 + slack(rng), stream: compress_or_stored(&plain_b, Some(&base_b), q, lgwin) },
+        ];
+        let fs = FontSpec {
+            n: 3,
+            glyf: Some((true, vec![vec![1, 2], vec![], vec![]])),
+            extra: vec![(*b"tabA", base_a), (*b"tabB", base_b)],
+            ..Default::default()
+        };
+        let spec = MapSpec {
+            format: 2,
+            compat,
+            template: "t/{id}".into(),
+            entries: vec![EntrySpec { kind: if j % 2 == 0 { Kind::TkPartial } else { Kind::TkFull }, id: j as u32 + 1, pre_applied: false }],
+            cff_off: None,
+            cff2_off: None,
+        };
+        let ift = built(spec, fs.n, false);
+        let bytes = tk_patch(b"iftk", &compat, &entries);
+        patches.insert(ift.infos[0].uri.clone(), PatchModel::Tk { entries, plains: vec![Some(plain_a), Some(plain_b)], bytes, new_ift: None });
+        (fs, ift, "directed:decoded-size-threshold:table-keyed")
+    } else {
+        // payload = 25 header bytes (count, table count, 2 gids, 1 tag, 3 offsets) + glyph data
+        let size = [(1 << 20) + 1, (2 << 20) + 1, (4 << 20) + 1, 1 << 20][j - 12];
+        let d2 = rng.bytes(300);
+        let mut d1 = enc::structured_bytes(rng, size - 25 - d2.len(), None);
+        stamp_positions(&mut d1);
+        let spec = GkSpec { wide: false, gids: vec![1, 2], tables: vec![GLYF], data: vec![vec![d1, d2]] };
+        let payload = gk_payload(&spec);
+        let fs = FontSpec { n: 4, glyf: Some((false, vec![vec![1, 2, 3, 4], vec![], vec![], vec![9; 6]])), ..Default::default() };
+        let mspec = MapSpec {
+            format: 2,
+            compat,
+            template: "g/{id}".into(),
+            entries: vec![EntrySpec { kind: Kind::Gk, id: j as u32 + 1, pre_applied: false }],
+            cff_off: None,
+            cff2_off: None,
+        };
+        let ift = built(mspec, fs.n, false);
+        let max_len = payload.len() as u32 + if j % 2 == 0 { 0 } else { 777 };
+        let bytes = gk_patch(b"ifgk", false, &compat, max_len, &compress_or_stored(&payload, None, q, lgwin));
+        patches.insert(ift.infos[0].uri.clone(), PatchModel::Gk { spec, bytes });
+        (fs, ift, "directed:decoded-size-threshold:glyph-keyed")
+    };
+    let font = build_font(&fs, Some(&ift.bytes), None);
+    let mut d = Digest::new();
+    d.bytes(&font);
+    for (u, p) in &patches {
+        d.str(u);
+        match p {
+            PatchModel::Gk { bytes, .. } | PatchModel::Tk { bytes, .. } => d.bytes(bytes),
+        }
+    }
+    Scenario { index, flavour: flavour.into(), fspec: fs, font, ift: Some(ift), iftx: None, patches, real: true, agree: true, digest: d.finish() }
+}
+
+/// Harness sanity for the family: the plain text the model expects really is what an independent
+/// look at the stream gives (decoded size recorded as evidence).
+fn run_threshold(ctx: &mut Ctx, seed: u64, j: usize) {
+    let sc = threshold_scenario(seed, j);
+    let mut rng = Rng::derive(seed, "c18-threshold-drive", j as u64);
+    ctx.label("flavours", &sc.flavour);
+    ctx.count("threshold_scenarios", 1);
+    for p in sc.patches.values() {
+        match p {
+            PatchModel::Tk { plains, entries, .. } => {
+                for (pl, e) in plains.iter().zip(entries) {
+                    let n = pl.as_ref().map(|p| p.len()).unwrap_or(0);
+                    ctx.label("threshold_decoded_sizes", &format!("tk:{}:{n}", if e.flags & 1 == 1 { "replace" } else { "diff+dict" }));
+                    ctx.count("threshold_stream_bytes", e.stream.len() as u64);
+                }
+            }
+            PatchModel::Gk { spec, .. } => {
+                ctx.label("threshold_decoded_sizes", &format!("gk:{}", gk_payload(spec).len()));
+            }
+        }
+    }
+    run_history(ctx, &sc, &mut rng);
+}
+
 // ---------------------------------------------------------------- group driver
 
 struct State {
@@ -2294,6 +2423,12 @@ fn asan_slice(ctx: &mut Ctx, _args: &Args) {
         run_stream_fuzz(ctx, &sc, &mut rng);
         run_decoder_direct(ctx, &sc, &mut rng);
     }
+    // decoded sizes around 64 KiB / 1 MiB / 2 MiB / 4 MiB (subset: ASan is slow)
+    for j in [2usize, 3, 4, 5, 8, 11, 12, 13] {
+        if ctx.mine(j) {
+            run_threshold(ctx, seed, j);
+        }
+    }
     ctx.level = "exploration".into();
 }
 
@@ -2312,6 +2447,7 @@ pub fn run(ctx: &mut Ctx, args: &Args) {
         "glyph data is opaque to the patcher: generated glyf/gvar/charstring payloads are random bytes".into(),
         "CFF/CFF2 base tables reuse the non-charstrings prefix of font-test-data's NotoSansJP subsets; charstrings INDEX is generated".into(),
         "real C brotli is driven with stored (uncompressed meta-block) streams plus the repo's known shared-dictionary vector; other runs use NoopBrotliDecoder streams".into(),
+        "decoded-size family: 16 scenarios whose streams are compressed by the C brotli encoder (with / without raw shared dictionary) and decode to 64 KiB / 1 MiB / 2 MiB / 4 MiB -1/0/+1 bytes of position-stamped content".into(),
         "mapping entries are wildcard entries (empty subset definition), selected with SubsetDefinition::all()".into(),
     ];
     let thorough = ctx.tier.is_thorough();
@@ -2335,6 +2471,15 @@ pub fn run(ctx: &mut Ctx, args: &Args) {
         run_orders(ctx, &sc, &mut rng);
         run_malformed(ctx, &sc, &mut rng);
         run_stale_info(ctx, &sc, &mut rng);
+    }
+    // decoded-size thresholds through the real C decoder: one scenario per shard (shard 0 has the directed ones)
+    if !directed_only {
+        for j in 0..N_THRESHOLD_SCENARIOS {
+            if ctx.mine(j + 1) {
+                ctx.label("decoder", "BuiltInBrotliDecoder (C brotli)");
+                run_threshold(ctx, seed, j);
+            }
+        }
     }
     if ctx.mine(0) {
         for sc in directed_scenarios() {
